@@ -91,7 +91,7 @@ def run_property(pid, tier='quick', seed=0):
     # ---- T1-smt targets
     try:
         items = []
-        for modname, names in getattr(plan, 'T1', []):
+        for modname, names in list(getattr(plan, 'T1', [])) + (list(getattr(plan, 'T1_THOROUGH', [])) if tier == 'thorough' else []):
             importlib.import_module(modname)
             from .api import REGISTRY
             for n, t in REGISTRY.items():
